@@ -43,7 +43,7 @@ def extra_coverage(agg):
 
 # dimensions added in seeded round 9
 PROBES = list(PROBES) + ["E1:descriptor-exhaustion-raised", "E1:call-succeeded"]
-RULE = RULE + (" Round 9: fault kind E1 - for m in {0,1,2,n_out/2+1,n_out,n_out+1,n_out+3} the soft RLIMIT_NOFILE is set to (open descriptors + m) for the duration of the call: a REAL "
+RULE = RULE + (" Round 9: fault kind E1 - for m in {0,1,2,n_out/2+1,n_out,n_out+1,n_out+3} (single-output writers: {0,1,3}) the soft RLIMIT_NOFILE is set to (open descriptors + m) for the duration of the call: a REAL "
                "EMFILE; the call must raise (survivors are valid prefixes) or return with every golden file complete.")
 COMPONENTS = {**COMPONENTS, "simulated": list(COMPONENTS["simulated"]) + ["descriptor exhaustion: the soft RLIMIT_NOFILE of the worker process is lowered around the call (the EMFILE itself is the kernel's)"]}
 
